@@ -18,7 +18,7 @@ STANDINS = os.path.join(os.path.dirname(os.path.dirname(os.path.abspath(__file__
 
 
 def plan(tier, seed):
-    return sb.plan(tier, seed, per_shard_quick=12, per_shard_thorough=400, extra={"extra_path": [STANDINS]})
+    return sb.plan(tier, seed, per_shard_quick=24, per_shard_thorough=1200, extra={"extra_path": [STANDINS]})
 
 
 def config_fn(rng):
